@@ -152,6 +152,8 @@ def setup(ctx):
 def cases(ctx):
     rnd = ctx.rnd
     n = 0
+    if ctx.shard == ctx.nshards - 1:
+        yield ('repo-tests', 0, 0)
     per = ctx.scale(60, 600)
     for name in ctx.nonmut:
         sigs = SIG.get(name)
@@ -185,6 +187,16 @@ STAGES = ['sorted', 'reversed', 'enumerate', 'shuffle', 'keys', 'values', 'items
 
 
 def run_case(case, ctx):
+    if case[0] == 'repo-tests':
+        # the repository's own tests as a workload: every non-mutator window they open is judged by the wrappers in the function table
+        from lib import repotests
+        W = ctx.W
+        W.case, W.taint, W.self_mutating = case, [], set()
+        j0 = W.judged
+        repotests.run(ctx)
+        ctx.count('windows_judged_during_the_repository_tests', W.judged - j0)
+        W.taint = []
+        return
     r = random.Random(case[-2] if case[0] == 'call' else case[1])
     W = ctx.W
     W.case = case
